@@ -779,11 +779,16 @@ func init() {
 			}
 			c13IDVariant = 0
 			// 3. many ids at one Collect: n = 0..300 transactions, all / half / none of them expired
+			manyN := []int{}
 			for n := 0; n <= 300; n++ {
+				manyN = append(manyN, n)
+			}
+			manyN = append(manyN, 1023, 1024, 1025, 1100, 2047, 2048, 2049, 3000) // tables a map would be resized / rebuilt at
+			for _, n := range manyN {
 				if !c.Mine(int64(n)) {
 					continue
 				}
-				for _, k := range []int{n, n / 2, 0, 1} {
+				for _, k := range []int{n, n / 2, 0, 1, 3 * n / 4, n - 1} {
 					if k > n {
 						continue
 					}
